@@ -70,15 +70,14 @@ def run(env, rep):
         n_len += len(roles)
     rep.floor("C04.R1", "length fields written by the AMF0 encoder (each converted by a checked cast or TryFrom)", n_len, 3)
     # ---- R2 reserved name length
-    table, adt = amf0.encoder_functions(env, rep, "C04.R2")
+    table, adt = amf0.variant_encoders(env, rep, "C04.R2")
     if table:
-        ob = body_by_pretty(prog, table.get("Object", ""))
-        if ob is None:
+        opaths, ob, _ = table.get("Object", ([], None, []))
+        if not opaths:
             rep.anchor_missing("C04.R2", "encoder of Amf0Value::Object")
         else:
-            ex = grammar.emitted(env, ob.key)
             holes = []
-            for p in grammar.ok_paths(ex):
+            for p in opaths:
                 for i, t in enumerate(p):
                     if t[0] == "u16be" and t[1] == "hole":
                         holes.append(t)
@@ -110,6 +109,7 @@ def run(env, rep):
     if table and res:
         disp, _ = res
         marker_of_parser = {}
+        direct = {}            # marker -> variant built in the dispatch arm itself (no body)
         for (desc, val), targets in disp.items():
             if val.startswith("other") or amf0.is_comparison(desc):
                 continue
@@ -118,10 +118,11 @@ def run(env, rep):
                     for kind, tg in targets:
                         if kind == "call":
                             marker_of_parser.setdefault(tg, set()).add(int(x))
+                        elif kind == "returns" and amf0.direct_variant(tg):
+                            direct.setdefault(int(x), set()).add(amf0.direct_variant(tg))
         n3 = 0
-        for variant, fnp in sorted(table.items()):
-            eb = body_by_pretty(prog, fnp)
-            alts = amf0.canon_loops({amf0.norm_write_path(p) for p in grammar.ok_paths(grammar.emitted(env, eb.key))})
+        for variant, (vpaths, eb, _unm) in sorted(table.items()):
+            alts = amf0.canon_loops({amf0.norm_write_path(p) for p in vpaths})
             if not alts:
                 continue
             m = re.match(r"^u8=(\d+)", alts[0])
@@ -132,6 +133,12 @@ def run(env, rep):
             # decoder side: the parser this marker dispatches to, its reads and constructed variant
             parsers = [p for p, ms in marker_of_parser.items() if marker in ms]
             n3 += 1
+            if not parsers and marker in direct:
+                body = {a.split(" ", 1)[1] if " " in a else "" for a in alts}
+                rep.check("C04.R3", "agree:%s" % variant, direct[marker] == {variant} and body == {""},
+                          "marker %d: encoder writes %s, decoder builds %s in the dispatch arm without reading a body" % (marker, alts, variant),
+                          "encoder and decoder disagree on %s: encoder writes %s; marker %d makes the decoder return %s without reading a body" % (variant, alts, marker, sorted(direct[marker])), eb.span)
+                continue
             if len(parsers) != 1:
                 rep.bad("C04.R3", "agree:%s" % variant, "marker %d written for %s is dispatched to %s by the decoder" % (marker, variant, parsers or "no parser"), eb.span)
                 continue
